@@ -13,7 +13,10 @@
 open Model
 open Wire
 
-let z s = z_of_n (n_of_hex s)
+let z s =
+  if String.length s > 0 && s.[0] = '-' then
+    (match z_of_n (n_of_hex (String.sub s 1 (String.length s - 1))) with Zpos p -> Zneg p | x -> x)
+  else z_of_n (n_of_hex s)
 let zs v = (if z_is_neg v then "-" else "") ^ hex_of_n (n_of_z v)
 let zopt s = if s = "-" then None else Some (z s)
 
